@@ -1,5 +1,236 @@
 import JunoModel.C11.Proofs
+/-!
+C11 — property theorems (statements only; the proofs are in `Proofs.lean`, the vocabulary in
+`ModelSpec.lean`, the model of `jsonrpc/server.go` in `Model.lean`).
+
+All theorems quantify over every configuration `cfg`, every environment `env` (parameter types,
+validator, handlers), every method table `tbl` and every input `inp` (= any byte string, seen
+through Go's parse of its first JSON value; batches of any length, JSON of any depth).
+The real server answers a batch in the order its worker pool finishes; the model answers in
+request order, and the theorems that pair requests with responses are stated for every
+permutation of the response list.
+
+Three behaviours of the unchanged server contradict the property; each is a `Config` switch whose
+`false`/`some 128` value is the code as it is (`junoCfg`) and whose other value is the proposed
+repair. For each there is the full-strength theorem under the repaired value, a `_partial` theorem
+for the unchanged server, and a proved counterexample on `junoCfg`.
+-/
 namespace Juno.C11.Props
 open Juno.C11
-theorem placeholder_partial : isSane {} = some .version := by decide
+
+/-! ## 1. Well-formed output -/
+
+/-- FULL (repaired `nullForNilResult`): for every input the output is nothing, or one JSON-RPC 2.0
+response object (`jsonrpc:"2.0"`, exactly one of result / error, an id) for a single request or a
+refused input, or a non-empty array of such objects for a batch. -/
+theorem wellformed_response (cfg : Config) (env : Env) (tbl : Table) (inp : Input)
+    (hfix : cfg.nullForNilResult = true) :
+    WellFormedBody (inp.batch? cfg).isSome (handleInput cfg env tbl inp).body :=
+  wellformed cfg env tbl inp (Or.inl hfix)
+
+/-- PARTIAL (any configuration, in particular the unchanged server): the same, provided no handler
+returns an untyped nil result together with a nil error. What is missing: handlers returning
+`(nil, nil)` — see `wellformed_response_fails_for_nil_result`. -/
+theorem wellformed_response_partial (cfg : Config) (env : Env) (tbl : Table) (inp : Input)
+    (hno : NoNilResult env) :
+    WellFormedBody (inp.batch? cfg).isSome (handleInput cfg env tbl inp).body :=
+  wellformed cfg env tbl inp (Or.inr hno)
+
+/-- every handler returns `(nil, nil)`; one method `m` without parameters -/
+def nilEnv : Env := { decode := fun _ v => some v, zero := fun _ => .null, call := fun _ _ => {} }
+def oneMethod : Table := [{ name := "m", params := [] }]
+def request (method : String) (rest : List (String × Json)) : Json :=
+  .obj ([("jsonrpc", .str "2.0"), ("method", .str method)] ++ rest)
+def singleInput (j : Json) : Input := { leadWs := 0, firstIsBracket := false, parsed := some j }
+
+/-- DEFECT (unchanged server): `{"jsonrpc":"2.0","method":"m","id":1}` with a handler returning
+`(nil, nil)` is answered with `{"jsonrpc":"2.0","id":1}` — neither result nor error. -/
+theorem wellformed_response_fails_for_nil_result :
+    (handleInput junoCfg nilEnv oneMethod (singleInput (request "m" [("id", .num "1")]))).body
+        = some (.obj [("jsonrpc", .str "2.0"), ("id", .num "1")])
+    ∧ ¬ WellFormedBody false
+        (handleInput junoCfg nilEnv oneMethod (singleInput (request "m" [("id", .num "1")]))).body := by
+  have h : (handleInput junoCfg nilEnv oneMethod (singleInput (request "m" [("id", .num "1")]))).body
+      = some (.obj [("jsonrpc", .str "2.0"), ("id", .num "1")]) := by rfl
+  refine ⟨h, ?_⟩
+  rw [h]
+  rintro ⟨id, hr⟩
+  have := isResponse_members hr
+  simp at this
+
+/-! ## 2. No output iff every request is a notification -/
+
+/-- The server is silent iff the input consists of request values it passes over in silence
+(`Stage.noReply`): in particular never for unparsable input, an empty batch or disabled batches. -/
+theorem silent_iff_no_reply_expected (cfg : Config) (env : Env) (tbl : Table) (inp : Input) :
+    (handleInput cfg env tbl inp).body = none ↔
+      ∃ es, inp.entries cfg = some es ∧ ∀ e ∈ es, (stageOf env tbl e).noReply cfg = true :=
+  silent_iff cfg env tbl inp
+
+/-- FULL (repaired `silentNotificationErrors`): no output iff every request value of the input is a
+notification (a sane Request without id). -/
+theorem silent_iff_all_notifications (cfg : Config) (env : Env) (tbl : Table) (inp : Input)
+    (hfix : cfg.silentNotificationErrors = true) :
+    (handleInput cfg env tbl inp).body = none ↔
+      ∃ es, inp.entries cfg = some es ∧ ∀ e ∈ es, (stageOf env tbl e).isNotification = true := by
+  rw [silent_iff cfg env tbl inp]
+  have : ∀ s : Stage, s.noReply cfg = s.isNotification := by
+    intro s; cases s <;> simp [Stage.noReply, Stage.isNotification, hfix]
+  simp only [this]
+
+/-- PARTIAL (unchanged server): no output iff every request value is a notification whose method
+exists and whose params bind. What is missing: notifications that fail at the method lookup or the
+argument binding are answered — see `notification_answered_with_error`. -/
+theorem silent_iff_all_notifications_partial (env : Env) (tbl : Table) (inp : Input) :
+    (handleInput junoCfg env tbl inp).body = none ↔
+      ∃ es, inp.entries junoCfg = some es ∧
+        ∀ e ∈ es, (stageOf env tbl e).isNotification = true ∧ ((stageOf env tbl e).call?).isSome = true := by
+  rw [silent_iff junoCfg env tbl inp]
+  have : ∀ s : Stage, s.noReply junoCfg = true ↔ (s.isNotification = true ∧ s.call?.isSome = true) := by
+    intro s; cases s <;> simp [Stage.noReply, Stage.isNotification, Stage.call?, junoCfg]
+  simp only [this]
+
+/-- DEFECT (unchanged server): the notification `{"jsonrpc":"2.0","method":"nope"}` is answered with
+a -32601 error object. -/
+theorem notification_answered_with_error :
+    (stageOf nilEnv oneMethod (request "nope" [])).isNotification = true
+    ∧ IsErrorResponse (-32601) .null
+        ((handleInput junoCfg nilEnv oneMethod (singleInput (request "nope" []))).body.getD .null) := by
+  refine ⟨by rfl, "Method Not Found", none, by rfl⟩
+
+/-! ## 3. One response per request, carrying its id, with the code of the first failing stage -/
+
+/-- For every input that is not refused as a whole: the output is the list of response objects put
+on the wire (`assemble`: nothing / the object / the array), and the response objects correspond
+one-to-one, in order, to the request values that are not passed over in silence; each carries the
+id of its request, the error code of the first failing stage, or the handler's outcome.
+Stated for EVERY permutation `rs'` of the response list (the worker pool may finish in any order):
+there is a matching permutation of the requests. Needs `ResultsOk` (repaired nil results, or no
+handler returning `(nil, nil)`) only for the "exactly one of result/error" part. -/
+theorem one_response_per_request (cfg : Config) (env : Env) (tbl : Table) (inp : Input)
+    (es : List Json) (hes : inp.entries cfg = some es) (hok : ResultsOk cfg env) :
+    ∃ rs, (handleInput cfg env tbl inp).body = assemble (inp.batch? cfg).isSome rs ∧
+      ∀ rs', rs.Perm rs' →
+        ∃ es', (es.filter (fun e => !(stageOf env tbl e).noReply cfg)).Perm es' ∧
+          Forall₂ (AnswersRequest cfg env tbl (inp.decodeFailCode cfg)) es' rs' := by
+  refine ⟨_, output_assemble cfg env tbl inp es hes, ?_⟩
+  intro rs' hp
+  have hf := forall₂_imp (fun a b h => answersRequest_of_answers (decodeFailCode_cases cfg inp) hok h)
+    (responses_forall₂ cfg env tbl inp es hes)
+  exact forall₂_perm_right hf hp
+
+/-- `error_codes`: an input that is refused as a whole (no parsable JSON value; an empty batch;
+batches disabled) gets exactly one error object with id null and code -32700 resp. -32600, and no
+handler runs. (The codes of individual requests are part of `one_response_per_request`.) -/
+theorem error_codes_refused_input (cfg : Config) (env : Env) (tbl : Table) (inp : Input)
+    (h : inp.entries cfg = none) :
+    ∃ code j, (code = -32700 ∨ code = -32600) ∧
+      handleInput cfg env tbl inp = { body := some j, log := [] } ∧ IsErrorResponse code .null j :=
+  handleInput_refused cfg env tbl inp h
+
+/-- unparsable input is answered with -32700 whatever the configuration, unless it starts like a
+batch while batches are disabled (then -32600 without looking further) -/
+theorem error_codes_unparsable (cfg : Config) (env : Env) (tbl : Table) (inp : Input)
+    (hp : inp.parsed = none) (hb : isBatch cfg inp = false ∨ cfg.batchDisabled = false) :
+    ∃ j, handleInput cfg env tbl inp = { body := some j, log := [] } ∧ IsErrorResponse (-32700) .null j := by
+  refine ⟨(errResponse InvalidJSON (some opaqueData)).toJson, ?_, errResponse_isError (-32700) _ (by simp)⟩
+  rcases hb with hb | hb
+  · simp [handleInput, hb, hp]
+  · cases hB : isBatch cfg inp <;> simp [handleInput, hB, hb, hp]
+
+/-! ## 4. Each valid request invokes its handler exactly once with the supplied arguments -/
+
+/-- The invocation log is exactly: one call `(method, args)` per request value that passes every
+stage (decode, isSane, lookup, binding), in request order, nothing for any other request value —
+notifications included, refused inputs excluded. The real server's log is a permutation of it. -/
+theorem invoked_once_same_args (cfg : Config) (env : Env) (tbl : Table) (inp : Input) :
+    (handleInput cfg env tbl inp).log =
+      match inp.entries cfg with
+      | none => []
+      | some es => es.filterMap (fun e => (stageOf env tbl e).call?) := by
+  cases he : inp.entries cfg with
+  | none =>
+    obtain ⟨_, _, _, hout, _⟩ := handleInput_refused cfg env tbl inp he
+    rw [hout]
+  | some es => exact log_eq cfg env tbl inp es he
+
+/-- The arguments of a positional call: the supplied values decoded in order against the parameter
+types, followed by the zero values of the omitted (optional) parameters. -/
+theorem positional_args_as_supplied (env : Env) (ps : List Param) (vs args : List Json)
+    (hlen : vs.length ≤ ps.length) (h : bindPositional env ps vs = .ok args) :
+    args.length = ps.length ∧
+    Forall₂ (fun (pv : Param × Json) a => env.decode pv.1.ty pv.2 = some a) (ps.zip vs) (args.take vs.length) ∧
+    args.drop vs.length = (ps.drop vs.length).map (fun p => env.zero p.ty) :=
+  bindPositional_spec env ps vs args hlen h
+
+/-- Positional and named parameters bind identically: for a method with distinct parameter names
+whose optional parameters form a tail, `[v1..vk]` and `{"name1":v1, .., "namek":vk}` give the same
+argument vector (or the same error). -/
+theorem positional_named_same_args (env : Env) (m : Method) (vs : List Json)
+    (hnd : (m.params.map (·.name)).Nodup) (htail : OptionalTail m.params)
+    (hmin : requiredParamCount m ≤ vs.length) (hmax : vs.length ≤ m.params.length) :
+    buildArguments env (some (.arr vs)) m =
+      buildArguments env (some (.obj ((m.params.map (·.name)).zip vs))) m :=
+  positional_named env m vs hnd htail hmin hmax
+
+/-! ## 5. Batch recognition -/
+
+/-- FULL (repaired `peekLimit = none`): every input whose first non-blank byte is `[` is handled as
+a batch. -/
+theorem array_input_is_batch (cfg : Config) (inp : Input) (hfix : cfg.peekLimit = none)
+    (h : inp.firstIsBracket = true) : isBatch cfg inp = true := by
+  rw [isBatch_iff]; exact ⟨h, by simp [hfix]⟩
+
+/-- PARTIAL (unchanged server): … provided fewer than 128 blank bytes precede the `[`. What is
+missing: see `batch_after_128_blanks_not_recognised`. -/
+theorem array_input_is_batch_partial (inp : Input) (h : inp.firstIsBracket = true)
+    (hws : inp.leadWs < 128) : isBatch junoCfg inp = true := by
+  rw [isBatch_iff]; refine ⟨h, ?_⟩; intro n hn; simp [junoCfg] at hn; omega
+
+/-- DEFECT (unchanged server): 128 blanks followed by a valid one-element batch: one -32700 error
+object instead of the array of responses, and the handler does not run. -/
+theorem batch_after_128_blanks_not_recognised :
+    let inp : Input := { leadWs := 128, firstIsBracket := true,
+                         parsed := some (.arr [request "m" [("id", .num "1")]]) }
+    IsErrorResponse (-32700) .null ((handleInput junoCfg nilEnv oneMethod inp).body.getD .null)
+    ∧ (handleInput junoCfg nilEnv oneMethod inp).log = []
+    ∧ (handleInput { junoCfg with peekLimit := none } nilEnv oneMethod inp).log = [("m", [])] := by
+  refine ⟨⟨"Parse error", some opaqueData, by rfl⟩, by rfl, by rfl⟩
+
+/-! ## 6. The validator of rpc/v10 (arithmetic) -/
+
+/-- `felt_max_bits=b` accepts exactly the values below 2^b -/
+theorem feltMaxBits_spec (n b : Nat) : feltMaxBits n b = true ↔ n < 2 ^ b := by
+  simp [feltMaxBits, bitLen_le_iff]
+
+/-! ## Non-vacuity: the hypotheses are satisfiable, the model does what the examples of the
+specification say -/
+
+def echoEnv : Env :=
+  { decode := fun _ v => some v, zero := fun _ => .null, call := fun _ args => { result := some (.arr args) } }
+def subTable : Table :=
+  [{ name := "subtract", params := [{ name := "minuend" }, { name := "subtrahend" }] },
+   { name := "opt", params := [{ name := "a" }, { name := "b", optional := true }] }]
+
+example : NoNilResult echoEnv := fun _ _ => Or.inl rfl
+example : ResultsOk { junoCfg with nullForNilResult := true } nilEnv := Or.inl rfl
+example : OptionalTail [{ name := "a" }, { name := "b", optional := true }] := by simp [OptionalTail]
+-- a positional and a named call of the specification, a notification, an unknown method in a batch
+example : (handleInput junoCfg echoEnv subTable
+    (singleInput (request "subtract" [("params", .arr [.num "42", .num "23"]), ("id", .num "1")]))).body
+    = some (.obj [("jsonrpc", .str "2.0"), ("result", .arr [.num "42", .num "23"]), ("id", .num "1")]) := by rfl
+example : (handleInput junoCfg echoEnv subTable
+    (singleInput (request "subtract" [("params", .obj [("subtrahend", .num "23"), ("minuend", .num "42")]), ("id", .num "3")]))).body
+    = some (.obj [("jsonrpc", .str "2.0"), ("result", .arr [.num "42", .num "23"]), ("id", .num "3")]) := by rfl
+example : (handleInput junoCfg echoEnv subTable (singleInput (request "opt" [("params", .arr [.num "7"])]))).body = none
+    ∧ (handleInput junoCfg echoEnv subTable (singleInput (request "opt" [("params", .arr [.num "7"])]))).log
+        = [("opt", [.num "7", .null])] := ⟨by rfl, by rfl⟩
+example : ({ leadWs := 0, firstIsBracket := true,
+             parsed := some (.arr [request "nope" [("id", .str "a")], .num "1"]) } : Input).entries junoCfg
+    = some [request "nope" [("id", .str "a")], .num "1"] := by rfl
+example : feltMaxBits (2 ^ 64 - 1) 64 = true ∧ feltMaxBits (2 ^ 64) 64 = false := by
+  refine ⟨(feltMaxBits_spec _ _).mpr (by decide), ?_⟩
+  rw [Bool.eq_false_iff, Ne, feltMaxBits_spec]
+  decide
+
 end Juno.C11.Props
